@@ -46,6 +46,11 @@ def seq_families(tier):
     nre = dict(maxData=2, maxTop=2, maxPull=0, allowFail=False, reentrant=True)
     for kind in ("merge", "concat", "combine"):
         F[kind + "2_re"] = (scen.with_bounds(scen.nary(kind, 2, mode="push"), kind, **nre), None)
+    # ... with failures: a sink's Error handler may make a sibling member emit / end (e.g. it reports the error
+    # to a subject that feeds the sibling)
+    for kind in ("merge", "concat", "combine"):
+        F[kind + "2_re_fail"] = (scen.with_bounds(scen.nary(kind, 2, mode="push"), kind, maxData=1, maxTop=2, maxPull=0,
+                                                  allowFail=True, reentrant=True), None)
     F["merge2_late_re"] = (scen.with_bounds(scen.nary("merge", 2, mode="push", late=True), "merge", maxData=1, maxTop=3,
                                             maxPull=0, allowFail=False, reentrant=True), None)
     F["flatten2_re"] = (scen.with_bounds(scen.flatten_g(2, "push", "push"), "flatten", maxData=2, maxTop=3,
@@ -84,6 +89,7 @@ def seq_families(tier):
     for kind in ("merge", "concat", "combine"):
         F[kind + "2_2s"] = (scen.with_bounds(scen.nary(kind, 2), kind, **tb), None)
     F["take1_2s"] = (scen.with_bounds(scen.unary("take", n=1), "take", **dict(tb, maxPull=1)), None)
+    F["flatten2_2s"] = (scen.with_bounds(scen.flatten_g(2), "flatten", **tb), None)
     # two subscriptions whose members only end: every member of both runs can complete (five top-level actions)
     F["concat2_2s_ends"] = (scen.with_bounds(scen.nary("concat", 2), "concat", **dict(tb, maxData=0, maxTop=5, allowFail=False)), None)
     nb = dict(maxData=1 if q else 2, maxTop=3, maxPull=1, allowFail=True)
@@ -390,6 +396,10 @@ def plan(prop, tier):
         fams.append(("fromiter_2s", [scen.with_bounds(from_iter_g(xs), "from_iter", maxTop=5 if q else 6, maxPull=3, **two)
                                      for xs in ([1, 2], None)],
                      scen.with_bounds(from_iter_g([1, 2, 3, 4]), "from_iter", maxTop=10, maxPull=6, sinkErr=True, **two)))
+        # flatten with emissions inside the greetings (an outer that hands out an inner and completes while the
+        # sink is still being attached), listenable members
+        fams.append(("flatten_2s_burst", scen.with_bounds(scen.flatten_g(2, "push", "push"), "flatten", maxData=1, maxTop=4,
+                                                         maxPull=0, allowFail=False, burst=True, **two), None))
         # overlapping subscriptions: one sink makes the other act from inside its own handler
         xb = dict(maxData=1, maxTop=4, maxPull=1, allowFail=False, burst=False, cross=True)
         for kind, par in (("scan", dict(r="lin", seed=5)), ("take", dict(n=1)), ("filter", dict(p="even"))):
